@@ -87,6 +87,11 @@ def cases(tier, seed):
             for k in range(2 if tier == "quick" else 4):
                 out.append({"kind": "run", "cls": solver, "solver": solver, "idx": idx, "seed": seed, "maxd": maxd, "nseeds": 1, "dims": list(dims)})
                 idx += 1
+    for st_ in ("herm_pd", "nearly_herm_pd", "nearly_herm_pd", "diag", "upper_tri", "unitary_scaled", "real_only", "zero_row_tall"):
+        for solver in ("rsp_column_qr", "rsp_column_spd", "rsp_row", "rsp_compute", "hybrid", "cgne"):
+            for k in range(2 if tier == "quick" else 8):
+                out.append({"kind": "run", "cls": solver + ":structured", "solver": solver, "idx": idx, "seed": seed, "maxd": maxd, "nseeds": 2, "structure": st_})
+                idx += 1
     # deterministic CGNE: every iteration budget 1..B on a few ill-conditioned inputs (the flag must follow the LAST residual)
     for k in range(6 if tier == "quick" else 40):
         out.append({"kind": "run", "cls": "cgne_all_budgets", "solver": "cgne_budgets", "idx": idx, "seed": seed, "maxd": maxd, "nseeds": 1})
@@ -105,6 +110,37 @@ def _matrix(rng, spec, orientation):
         b, a = max(spec["dims"]), min(spec["dims"])
         m, n = (b, a) if orientation == "tall" else (a, b)
     N = min(m, n)
+    st_ = spec.get("structure")
+    if st_:
+        # SQUARE inputs with exact or near structure (Hermitian positive definite, Hermitian up to a relative 1e-9 .. 4e-6, diagonal, triangular,
+        # scaled unitary, real): a solver option may treat such input specially; the pseudoinverse is the oracle's
+        n_ = max(2, a)
+        e_ = np.linspace(4.0, 1.0, n_) if n_ > 1 else np.array([2.0])
+        if st_ in ("herm_pd", "nearly_herm_pd"):
+            A = refq.hermitian_with_eigs(rng, e_)[0]
+            if st_ == "nearly_herm_pd":
+                d_ = float(rng.choice([4e-6, 1e-7, 1e-9, 1e-5]))
+                A = refq.qa(refq.fa(A) * (1.0 + d_ * rng.uniform(-1.0, 1.0, size=(n_, n_, 1))))
+        elif st_ == "diag":
+            A = refq.diagq(e_, n_, n_) * refq.randq(rng, 1, 1)[0, 0]
+        elif st_ == "upper_tri":
+            A = gen.structured(rng, "upper_tri", n_, n_) + refq.diagq(np.full(n_, 3.0), n_, n_)
+        elif st_ == "unitary_scaled":
+            A = refq.rand_unitary(rng, n_) * 2.5
+        elif st_ == "real_only":
+            A = gen.structured(rng, "real_only", n_, n_) + refq.diagq(np.full(n_, 3.0), n_, n_)
+        elif st_ == "zero_row_tall":
+            # tall, full column rank, one exactly zero row, 8..12 columns (blocks of that width are genuine blocks): the matching column of
+            # the pseudoinverse is exactly zero and nothing the solver measures depends on it
+            n_ = int(rng.integers(8, 13)); m_ = n_ + int(rng.integers(1, 5))
+            A, _, _ = refq.with_singular_values(rng, m_, n_, np.linspace(3.0, 1.0, n_))
+            A[int(rng.integers(0, m_)), :] = np.quaternion(0, 0, 0, 0)
+            if orientation != "tall":
+                A = refq.herm(A)
+        else:
+            raise ValueError(st_)
+        s = embed.svals(A)
+        return A, embed.pinv(A), s, float(s[0] / s[-1])
     kap = float(rng.choice([1.0, 10.0, 1e2, 1e3], p=[0.3, 0.4, 0.2, 0.1]))
     scale = float(rng.choice([1e-2, 1.0, 1.0, 1e2]))
     s = (np.geomspace(kap, 1.0, N) if N > 1 else np.array([1.0])) * scale
@@ -186,6 +222,17 @@ def run_case(spec, ctx, R):
             tol = cfg["tol"]
     else:
         cfg = {"tol": tol, "max_iter": int(rng.choice([1, 2, 3, 4, 5, 6, 8, 10, 12, 16, 24, 500, 500, 500, 500])), "preconditioner_rank": int(rng.choice([0, 0, max(1, N // 2)]))}
+    if spec.get("structure"):
+        # structured inputs are run to convergence at a tight tolerance (a run that does not converge says nothing about what is returned)
+        tol = [1e-8, 1e-10, 1e-6][spec["idx"] % 3]
+        cfg["tol"] = tol
+        if solver.startswith("rsp"):
+            cfg.update(max_iter=400, block_size=int(rng.integers(max(1, N // 2), N + 1)))
+        elif solver == "hybrid":
+            cfg.update(max_iter=200, r=int(rng.integers(max(1, N // 2), N + 1)))
+        else:
+            cfg.update(max_iter=500)
+        ctx.hit("inputs:structured_square:" + spec["structure"])
     if solver.startswith("rsp") and spec["idx"] % 3 == 0:
         cfg["test_sketch_size"] = cfg["block_size"]          # the stopping sketch has the shape of an iteration sketch
     seed_via = cfg.pop("seed_via", "global")
